@@ -448,6 +448,24 @@ def multi_degree():
 
 
 @entry("quick")
+def same_size_rules():
+    """different rules with the SAME number of points, same integrand structure, in one integral: anything cached
+    per rule size (temporaries, tables, weights) collides here and nowhere else."""
+    ufl, _, _ = _U()
+    m = mesh("triangle")
+    V = space(m, "Lagrange", 1)
+    u, v = tt(V)
+    f = ufl.Coefficient(V)
+    md = {"quadrature_rule": "custom",
+          "quadrature_points": np.array([[0.25, 0.5], [0.5, 0.125], [0.125, 0.125]]),
+          "quadrature_weights": np.array([0.25, 0.125, 0.125])}
+    L = f * v * ufl.dx(degree=2) + f * v * ufl.dx(scheme="vertex") + f * v * ufl.dx(metadata=md)
+    a = f * u * v * ufl.dx(degree=2) + f * u * v * ufl.dx(scheme="vertex")
+    Lf = f * v * ufl.ds(degree=3) + f * v * ufl.ds(scheme="vertex")
+    return [L, a, Lf], {}
+
+
+@entry("quick")
 def custom_rule():
     ufl, _, _ = _U()
     m = mesh("triangle")
@@ -583,6 +601,21 @@ def expr_facet_points():
     n = ufl.FacetNormal(m)
     pts = np.array([[0.25], [0.75]])
     return [(ufl.inner(ufl.grad(f), n), pts), (ufl.inner(ufl.grad(u), n), pts)], {}
+
+
+@entry("quick", "expr")
+def expr_facet_points_uniform_tables():
+    """expressions with an Argument at FACET points whose tables are the same on every facet (derivatives of P1 on
+    simplices): the table keeps one entity slot, so the entity index must not be used to address it."""
+    ufl, _, _ = _U()
+    out = []
+    for cell, pts in (("triangle", np.array([[0.25], [0.75]])), ("tetrahedron", np.array([[0.25, 0.25], [0.5, 0.125]]))):
+        m = mesh(cell)
+        V = space(m, "Lagrange", 1)
+        u, f = ufl.TrialFunction(V), ufl.Coefficient(V)
+        n = ufl.FacetNormal(m)
+        out += [(ufl.grad(u), pts), (f * ufl.inner(ufl.grad(u), n), pts)]
+    return out, {}
 
 
 @entry("quick", "expr")
